@@ -3,13 +3,18 @@ from harness import ll_common as ll
 
 PROPERTY = "C01"
 STATEFUL = True
-READY = False
-THEOREMS = ["C01.run_sound", "C01.table_wf", "C01.parse_valid_partial"]
+READY = True
+THEOREMS = ["C01.run_sound", "C01.table_wf", "C01.factorize_ok", "C01.parse_valid"]
 RULE = ("one case = one generated grammar (3 generators + malformed stream, 5 token configurations, permuted names), "
         "constructed with smart_factorization True and False, each followed by every token string up to the tier's "
         "length; non-trivial = at least one returned tree and at least one ParsingError in the case; distinct by protocol text")
 TRUSTED = ["re (lexemes are found by the harness with the tokenizer's own pattern)"]
-ASSUMPTIONS = ["symbol names supplied by users do not end in '_' (rendering of suffix names is injective)"]
+ASSUMPTIONS = ["hypotheses of C01.parse_valid: no right-hand side of `productions` names a `__` symbol (the constructor asserts "
+               "this for keys and terminals only; with `E -> A b | A c | E__S00` the real parse('b') returns E[b], not a user "
+               "production - such inputs are outside the generated domain); the start symbol is a key of `productions`; "
+               "no lexeme is named $END$",
+               "Python names are decoded into structured symbols (base, helper path) by the model's parseSym; names ending in "
+               "'_' next to a helper suffix are not generated"]
 
 
 def impl(case):
@@ -59,6 +64,14 @@ tags = ll.tags
 nontrivial = ll.nontrivial
 observable = ll.observable
 
-LEVEL_TEXT = "under construction"
-LEVEL_NOTE = ""
-TECHNIQUE = "Lean 4 theorems + correspondence check"
+LEVEL_TEXT = ("Kernel-checked for ALL grammars, token lists and both smart_factorization values on the executable model of "
+              "LLParser.__init__ + parse: a returned tree is rooted at the start symbol, every inner node is one of the user's "
+              "productions, leaves are exactly the non-skipped tokens, no helper symbol occurs (C01.parse_valid = soundness of "
+              "the backtracking loop C01.run_sound + table well-formedness C01.table_wf + correctness of common-prefix "
+              "factorisation incl. the smart undo C01.factorize_ok). model = code is established by a differential run: "
+              "constructor outcome, is_ambiguous() and every raw tree / error class compared on generated grammars x all short "
+              "token strings; prods_map, suffix set, table, nullables, FIRST, FOLLOW compared as diagnostics.")
+LEVEL_NOTE = ("Trusted: Lean kernel (axioms propext, Classical.choice, Quot.sound), harness adapter/oracle, sampled "
+              "correspondence, re for lexemes. Hypotheses of the composed theorem: no `__` name on a right-hand side, start symbol "
+              "is a user key, no lexeme named $END$ (see ASSUMPTIONS).")
+TECHNIQUE = "Lean 4 theorems (invariant of the stack machine, induction over factorisation) + differential testing against the real LLParser"
